@@ -15,6 +15,7 @@ import (
 	"go/types"
 	"reflect"
 	"sort"
+	"sync"
 )
 
 type astLink struct {
@@ -101,8 +102,23 @@ func (p *path) importAST(rv reflect.Value) value {
 	return nil
 }
 
-// vfTypeCheck(pkgPath, fileNames, sources, imports) *packages.Package
-func vfTypeCheck(p *path, caller *frame, args []value) value {
+var (
+	stdImporterMu sync.Mutex
+	stdImporter   types.Importer
+)
+
+// importStd type-checks a standard-library package from source (cached for the whole process).
+func importStd(path string) (*types.Package, error) {
+	stdImporterMu.Lock()
+	defer stdImporterMu.Unlock()
+	if stdImporter == nil {
+		stdImporter = importer.ForCompiler(token.NewFileSet(), "source", nil)
+	}
+	return stdImporter.Import(path)
+}
+
+// typeCheckSources parses and type-checks one package given as source text.
+func (p *path) typeCheckSources(args []value) (*hostPackage, []string, []string) {
 	pkgPath := p.argName(args[0])
 	names, _ := args[1].([]value)
 	srcs, _ := args[2].([]value)
@@ -119,14 +135,13 @@ func vfTypeCheck(p *path, caller *frame, args []value) value {
 		}
 	}
 	fset := token.NewFileSet()
-	if len(imps) > 0 {
-		// one file set for the whole import tree, as go/packages does
-		for _, hp := range byPath {
-			fset = hp.fset
-			break
-		}
+	for _, hp := range byPath {
+		fset = hp.fset // one file set for the whole import tree, as go/packages does
+		break
 	}
 	var files []*ast.File
+	var fileNames []string
+	var errs []string
 	for i := range names {
 		src := srcs[i].(Str)
 		if !src.IsConcrete() {
@@ -134,23 +149,58 @@ func vfTypeCheck(p *path, caller *frame, args []value) value {
 		}
 		f, err := parser.ParseFile(fset, p.argName(names[i]), src.Concrete(), parser.ParseComments|parser.SkipObjectResolution)
 		if err != nil {
-			p.unsupported("vfTypeCheck: parse error in harness source: " + err.Error())
+			errs = append(errs, "syntax: "+err.Error())
+			continue
 		}
 		files = append(files, f)
+		fileNames = append(fileNames, p.argName(names[i]))
 	}
 	info := &types.Info{Types: map[ast.Expr]types.TypeAndValue{}, Defs: map[*ast.Ident]types.Object{}, Uses: map[*ast.Ident]types.Object{},
 		Selections: map[*ast.SelectorExpr]*types.Selection{}, Implicits: map[ast.Node]types.Object{}, Scopes: map[ast.Node]*types.Scope{},
 		Instances: map[*ast.Ident]types.Instance{}}
-	conf := types.Config{Importer: importerFunc(func(path string) (*types.Package, error) {
-		if hp, ok := byPath[path]; ok {
-			return hp.types, nil
-		}
-		return importer.Default().Import(path)
-	})}
-	tpkg, err := conf.Check(pkgPath, fset, files, info)
-	if err != nil {
-		p.unsupported("vfTypeCheck: type error in harness source: " + err.Error())
+	conf := types.Config{
+		Importer: importerFunc(func(path string) (*types.Package, error) {
+			if hp, ok := byPath[path]; ok {
+				return hp.types, nil
+			}
+			return importStd(path)
+		}),
+		Error: func(err error) { errs = append(errs, err.Error()) },
 	}
+	tpkg, _ := conf.Check(pkgPath, fset, files, info)
+	hp := &hostPackage{types: tpkg, info: info, files: files, fset: fset}
+	_ = byPath
+	return hp, fileNames, errs
+}
+
+// vfTypeErrors(pkgPath, fileNames, sources, imports) []string: the syntax and type errors of the package.
+func vfTypeErrors(p *path, caller *frame, args []value) value {
+	_, _, errs := p.typeCheckSources(args)
+	out := []value{}
+	for _, e := range errs {
+		out = append(out, p.mkStr(e))
+	}
+	return out
+}
+
+// vfTypeCheck(pkgPath, fileNames, sources, imports) *packages.Package
+func vfTypeCheck(p *path, caller *frame, args []value) value {
+	pkgPath := p.argName(args[0])
+	imps, _ := args[3].([]value)
+	l := p.links()
+	byPath := map[string]*hostPackage{}
+	for _, ip := range imps {
+		if cell, ok := ip.(*value); ok && cell != nil {
+			if hp := l.pkg[cell]; hp != nil {
+				byPath[hp.types.Path()] = hp
+			}
+		}
+	}
+	hp, fileNames, errs := p.typeCheckSources(args)
+	if len(errs) > 0 {
+		p.unsupported("vfTypeCheck: error in harness source: " + errs[0])
+	}
+	tpkg, info, files, fset := hp.types, hp.info, hp.files, hp.fset
 	// the interpreter-side *packages.Package
 	pt := p.eng.prog.ImportedPackage("golang.org/x/tools/go/packages").Pkg.Scope().Lookup("Package").Type()
 	st := p.zero(pt).(structure)
@@ -174,7 +224,7 @@ func vfTypeCheck(p *path, caller *frame, args []value) value {
 	var goFiles []value
 	for i, f := range files {
 		syn = append(syn, p.importAST(reflect.ValueOf(f)))
-		goFiles = append(goFiles, p.mkStr(p.argName(names[i])))
+		goFiles = append(goFiles, p.mkStr(fileNames[i]))
 	}
 	set("Syntax", syn)
 	set("GoFiles", goFiles)
@@ -191,7 +241,8 @@ func vfTypeCheck(p *path, caller *frame, args []value) value {
 	set("Imports", im)
 	cell := new(value)
 	*cell = st
-	l.pkg[cell] = &hostPackage{types: tpkg, info: info, files: files, fset: fset, cell: cell}
+	hp.cell = cell
+	l.pkg[cell] = hp
 	return cell
 }
 
